@@ -816,6 +816,48 @@ example : ∀ v1 ∈ [plainDev, { plainDev with name := "w" }], ∀ v2,
     rw [this] at h
     cases h
 
+/-! ## F-C03g (repaired): a generated group name that is the name of an address -/
+
+/-- device: group g0 (four addresses) used by r1; an address named g0-1 used by r2 -/
+def gDev : Vsys :=
+  { name := "v",
+    rules := [mkRule "r1" ["g0"] "s1", { mkRule "r2" ["any"] "s1" with dst := ["g0-1"] }],
+    addrs := mkObjs ["a1", "a2", "a3", "a4", "a5", "g0-1"],
+    groups := [mkGrp "g0" ["a1", "a2", "a3", "a4"]], svcs := mkObjs ["s1"] }
+/-- target: the same, but g0 holds a5 only -/
+def gTgt : Vsys := { gDev with groups := [mkGrp "g0" ["a5"]] }
+
+/-- **F-C03g (repaired).**  Address and address-group share a name space on the device.
+`genUniqGroupNames` avoided the names of the groups of both sides only: the target's `g0`
+(other content, so it is transferred under a new name) became `g0-1` although the device has an
+ADDRESS of that name — the device would refuse the `set` (in the model: the state reached is
+not well-formed).  After the repair the generated name also avoids the address names of both
+sides: `g0-2`, and the state reached is well-formed and equivalent.  (Replayed on the real
+planner: corpus:generated-group-name-is-an-address-name.) -/
+theorem pan_group_name_address_clash_counterexample :
+    wellFormed [] gDev = true ∧ wellFormed [] gTgt = true ∧
+    uniqNames (gDev.groups.map (·.name)) (gTgt.groups.map (·.name)) = ["g0-1"] ∧
+    "g0-1" ∈ gDev.addrs.map (·.name) := by
+  decide
+
+theorem pan_group_name_address_clash_repaired :
+    groupNamesFor gDev gTgt = ["g0-2"] ∧
+    (execAll [] gDev (planVsys stdDiff gDev gTgt)).2.2 = none ∧
+    wellFormed [] (execAll [] gDev (planVsys stdDiff gDev gTgt)).1 = true ∧
+    equiv (execAll [] gDev (planVsys stdDiff gDev gTgt)).1 gTgt = true := by
+  set_option maxRecDepth 8192 in decide
+
+/-- After the repair a GENERATED name is never the name of an address of either side (for all
+configurations): part of `groupNamesFor_spec`. -/
+theorem pan_group_names_avoid_addresses (a b : Vsys) (hnd : (b.groups.map (·.name)).Nodup) :
+    (∀ n ∈ groupNamesFor a b, n ∉ a.groups.map (·.name)) ∧ (groupNamesFor a b).Nodup ∧
+    (∀ n ∈ groupNamesFor a b, n ∈ b.groups.map (·.name) ∨
+      (n ∉ a.addrs.map (·.name) ∧ n ∉ b.addrs.map (·.name))) :=
+  let ⟨h1, h2, h3, _⟩ := groupNamesFor_spec suffixInj a b hnd
+  ⟨h1, h2, h3⟩
+
+example : (gTgt.groups.map (·.name)).Nodup := by decide
+
 def obligations : List Lean.Name := [
   ``pan_rules_converge, ``pan_rules_converge_on_device, ``pan_members_converge, ``pan_group_members_converge,
   ``pan_group_reuse_sound, ``pan_uniq_names, ``pan_uniq_names_counterexample,
@@ -831,6 +873,8 @@ def obligations : List Lean.Name := [
   ``panos_outside_vsys_untouched, ``panos_device_converges_partial, ``stdDiff_good, ``stdDiff_identity,
   ``sortStrings_canonical, ``panos_equiv_implies_equivSem,
   ``panos_vsys_converges_groups_partial, ``panos_executable_groups_partial,
-  ``panos_unchanged_only_if_equivalent_groups_partial, ``panos_device_converges_groups_partial]
+  ``panos_unchanged_only_if_equivalent_groups_partial, ``panos_device_converges_groups_partial,
+  ``pan_group_name_address_clash_counterexample, ``pan_group_name_address_clash_repaired,
+  ``pan_group_names_avoid_addresses]
 
 end NA.PanOs
